@@ -28,9 +28,14 @@ def _costs(draw):
     """The shared cost classes, plus (1 case in 8) one cost for all three operations that no float represents exactly:
     the target sets are those of unit costs (scaling all costs by one factor changes no comparison), however sums of
     the cost round."""
-    if draw(st.integers(0, 7)) == 0:
+    k = draw(st.integers(0, 7))
+    if k == 0:
         c = draw(st.sampled_from(EQUAL_NONDYADIC))
         return [c, c, c]
+    if k == 1:
+        # insertions and substitutions so expensive that every distance exceeds any bound in the lengths (R + H + 1, ...)
+        big = draw(st.sampled_from([4.0, 16.0, 64.0, 256.0]))
+        return [big, draw(st.sampled_from([0.25, 1.0, big])), draw(st.sampled_from([big, 2 * big]))]
     return draw(G.dyadic_costs(force_ties=True))
 
 
@@ -85,6 +90,8 @@ def _oc_check(case, brute):
     cl = G.common_classes(b, rl, hl, case["costs"])
     if case["costs"][0] in EQUAL_NONDYADIC and _oc(case["costs"]) != case["costs"]:
         cl.append("costs_equal_inexact")
+    if min(case["costs"][0], case["costs"][2]) >= 4 and len(set(rl)) > 1:
+        cl.append("expensive_edits_mixed_reference_lengths")
     multi = repeated = past_end = empty_set = excluded = False
     alphabet = sorted(set(range(-2, b["A"] + 3)))
     for n in range(N):
@@ -133,7 +140,7 @@ def _oc_check(case, brute):
 
 @subcheck("C03", "targets_vs_dp", lambda tier: _oc_case(tier), 2000, 50000,
           doc="optimal_completion (function/module) vs {ref[j]: D[j][|p|] minimal over j<=r} from the scalar DP; set equality, once each, padding only after, padding past the hypothesis",
-          required_classes=["multi_target", "repeated_token_target", "past_end", "empty_target_set", "costs_unequal", "costs_equal_inexact", "exclude_last"])
+          required_classes=["multi_target", "repeated_token_target", "past_end", "empty_target_set", "costs_unequal", "costs_equal_inexact", "expensive_edits_mixed_reference_lengths", "exclude_last"])
 def _targets_vs_dp(case):
     return _oc_check(case, brute=False)
 
